@@ -261,6 +261,12 @@ def run(ctx):
             info_ = None
             if fl and len(fl) == 1:
                 hf = fl[0]
+                # sub-helpers that receive the helper's own parameters (`pop_operand(stack)`) are part of it
+                pids_ = {i_ for p_ in hf["params"] for _, i_ in pat_bindings(p_)}
+                subs_ = {callee(x) for x in walk(hf["body"]) if x.get("k") == "call" and (callee(x) or "") in c_lib.fns and callee(x) != cp
+                         and any(local_id(a_) in pids_ for a_ in x.get("args", []))}
+                if subs_:
+                    hf = norm_.prepare(hf, c_lib, force=tuple(sorted(subs_)))
                 P_ = [binding_of_pat(p) for p in hf["params"]]
                 ids = [b_[1] if b_ else None for b_ in P_]
                 pops_on = {canon(local_id(x["recv"])) for x in walk(hf["body"]) if x.get("k") == "mcall" and x["name"] == "pop" and local_id(x["recv"]) is not None}
@@ -451,6 +457,16 @@ def helper_pops(ctx, f, n, si=0, oi=1):
         while par is not None and par.get("k") in ("mcall", "try", "ref") and (par.get("recv") is chain_top or par.get("e") is chain_top):
             chain_top = par
             par = ix.parent.get(id(par))
+        if par is not None and par.get("k") == "match" and par.get("scrut") is chain_top:
+            # `match S.pop() { Some(x) => x, None => panic!(..) }` (an inlined pop helper): the match is the popped value; climb to the let it initialises
+            oe = norm_.opt_elim(par)
+            if oe is not None and oe["bind"] is not None and oe["some"] is not None and is_local(norm_.tail_value(oe["some"]), oe["bind"]) \
+                    and oe["none"] is not None and (oe["none"].get("ty") == "!" or norm_._diverges(oe["none"]) or any((callee(y_) or "").startswith("core::panicking") for y_ in walk(oe["none"]))):
+                chain_top = par
+                par = ix.parent.get(id(par))
+                while par is not None and (par.get("k") in ("blockexpr",) or (par.get("k") == "block" and par.get("tail") is chain_top)):
+                    chain_top = par
+                    par = ix.parent.get(id(par))
         if par is not None and par.get("k") == "tuple":
             pos = [i_ for i_, e_ in enumerate(par["es"]) if e_ is chain_top]
             holder = ix.parent.get(id(par))
